@@ -130,7 +130,9 @@ func sameValue(a, b reflect.Value) bool {
 	return false
 }
 
-func sameCRS(a, b *proj.SR) bool { return sameValue(reflect.ValueOf(a).Elem(), reflect.ValueOf(b).Elem()) }
+func sameCRS(a, b *proj.SR) bool {
+	return sameValue(reflect.ValueOf(a).Elem(), reflect.ValueOf(b).Elem())
+}
 
 // firstDiff names the first field in which two dumps differ (for diagnostics)
 func firstDiff(a, b string) string {
